@@ -143,7 +143,7 @@ fn scenario_with(words: &[u16], shape: Option<&[(Option<usize>, Role)]>) -> (Sce
             }
             _ => {}
         }
-        cas.push(Ca { parent, key: i, module, not_after: 86400 * 365, cert_fault: None, versions, extra_res: None, ta_alt: vec![], sia_under_parent_mft: false });
+        cas.push(Ca { parent, key: i, module, not_after: 86400 * 365, cert_fault: None, versions, extra_res: None, ta_alt: vec![], sia_under_parent_mft: false, rrdp: None });
         roles.push(role);
     }
     for i in 0..ncas {
@@ -158,8 +158,8 @@ fn scenario_with(words: &[u16], shape: Option<&[(Option<usize>, Role)]>) -> (Sce
     let publish1: Vec<usize> = roles.iter().map(|r| if *r == Role::Unchanged { 0 } else { 1 }).collect();
     let fail1 = if d.chance(1, 8) { vec![d.below(2)] } else { vec![] };
     let steps = vec![
-        Step { publish: vec![0; ncas], fail_modules: vec![], offline: false, stale: None, foreign_tal_key: vec![], ta_serve: vec![] },
-        Step { publish: publish1, fail_modules: fail1, offline: false, stale: None, foreign_tal_key: vec![], ta_serve: vec![] },
+        Step { publish: vec![0; ncas], fail_modules: vec![], offline: false, stale: None, foreign_tal_key: vec![], ta_serve: vec![], fail_rrdp: vec![] },
+        Step { publish: publish1, fail_modules: fail1, offline: false, stale: None, foreign_tal_key: vec![], ta_serve: vec![], fail_rrdp: vec![] },
     ];
     (Scenario { cfg, cas, steps }, roles.iter().map(|r| format!("{:?}", r)).collect())
 }
